@@ -628,6 +628,15 @@ func sortArray(v any) (any, error) {
 	r := slices.Clone(a)
 
 	if _, ok := a[0].(string); ok {
+		for _, i := range a[1:] {
+			if _, ok := i.(string); !ok {
+				return nil, &InvalidTypeError{
+					got:  reflect.TypeOf(i),
+					want: "string",
+				}
+			}
+		}
+
 		valid := true
 		var invalidType reflect.Type
 		slices.SortFunc(r, func(a, b any) int {
@@ -656,6 +665,15 @@ func sortArray(v any) (any, error) {
 		}
 
 		return r, nil
+	}
+
+	for _, i := range a {
+		if _, ok := toDecimal(i); !ok {
+			return nil, &InvalidTypeError{
+				got:  reflect.TypeOf(i),
+				want: "number",
+			}
+		}
 	}
 
 	valid := true
